@@ -118,6 +118,7 @@ def probes(backend: str) -> List[Tuple[str, str]]:
          ("undeclared_on_default_type", ("Select(ds, lambda e: e.TruthParticles('TP').Select(lambda p: p.pdgId()))" if backend == "atlas" else f"Select(ds, lambda e: e.{coll}('A').Select(lambda j: j.charge2()))")),
          ("constants_a", f"Select(SelectMany(ds, lambda e: e.{coll}('A')), lambda j: (j.pt() * NEGZERO, j.pt() + 1.0, 2, True, 0))"),
          ("constants_b", f"Select(SelectMany(ds, lambda e: e.{coll}('A')), lambda j: (j.pt() * 0.0, j.pt() + 1, 2.0, False, 1, 0.0))"),
+         ("declared_inline", f"Select(MetaData(ds, {{'metadata_type': 'add_method_type_info', 'type_string': '{cls}', 'method_name': 'nTrk', 'return_type': 'int'}}), lambda e: e.{coll}('A').Select(lambda j: j.nTrk()))"),
          ("docker_md_unknown", f"Select(MetaData(ds, {{'metadata_type': 'docker', 'image': 'x:y'}}), lambda e: e.{coll}('A').Count())"),
          ("job_script_self", "Select(MetaData(ds, {'metadata_type': 'add_job_script', 'name': 'js2', 'script': [\"print('js2')\"], 'depends_on': ['js1']}), lambda e: e.%s('A').Count())" % coll)]
     return P
@@ -140,6 +141,12 @@ def gen_history(R: random.Random, maxlen: int, inject: bool) -> List[Dict[str, A
             q = R.choice(UNSUPPORTED) % MAIN[backend][0]
         H.append({"backend": backend, "reuse": R.random() < 0.5, "md_kinds": kinds, "md": md, "query": q, "outcome": outcome,
                   "extended_md": "docker" in kinds or R.random() < 0.15, "exc_at": R.random()})
+        if R.random() < 0.12:
+            # the very query OBJECT a later probe will hand in again (a func_adl stream keeps its AST and may be run twice,
+            # or two queries may share a sub-tree): translating it must not change it
+            name, pq = R.choice([p for p in probes(backend) if p[0] in ("declared_inline", "plain", "pt_default", "job_script_self", "constants_a", "default_typed_method")])
+            H.append({"backend": backend, "reuse": R.random() < 0.5, "md_kinds": ["same_ast_object:" + name], "md": [], "query": pq, "outcome": "ok", "extended_md": False, "exc_at": 0.0,
+                      "share_ast": True})
     return H
 
 
@@ -162,12 +169,15 @@ def snapshot(executors) -> Dict[str, Any]:
     return d
 
 
-def translate_inline(exe, query: str, out: Path, mk_out=True) -> Dict[str, Any]:
+def translate_inline(exe, query: str, out: Path, mk_out=True, shared: Optional[Dict[str, Any]] = None, share: bool = False) -> Dict[str, Any]:
     from ..xlate import exc_info, parse_query
     try:
         if mk_out:
             out.mkdir(parents=True, exist_ok=True)
-        a = parse_query(query)
+        if shared is not None and (share or query in shared):
+            a = shared.setdefault(query, parse_query(query))   # the same AST OBJECT as an earlier step
+        else:
+            a = parse_query(query)
         info = exe.write_cpp_files(exe.apply_ast_transformations(a), out)
         files = {f: normalise((out / f).read_text()) for f in info.all_filenames}
         return {"status": "ok", "files": files, "tree": info.result_rep.treename}
@@ -188,6 +198,7 @@ def worker(args: Dict[str, Any]) -> Dict[str, Any]:
 
     out = Path(args["out"])
     executors: Dict[str, Any] = {}
+    shared_asts: Dict[str, Any] = {}
     trace = []
     base_snap = None
     for i, st in enumerate(args["history"]):
@@ -199,7 +210,7 @@ def worker(args: Dict[str, Any]) -> Dict[str, Any]:
             base_snap = snapshot({})
         if st.get("extended_md"):
             exe.add_extended_md({"docker": DockerImageSpecification("base/image:0")})
-        q = attach(st["query"], st["md"])
+        q = st["query"] if st.get("share_ast") else attach(st["query"], st["md"])
         tool_id = None
         if st["outcome"] == "inject_exc" and hasattr(sys, "monitoring"):
             # source-free failpoint: raise at the k-th executed line of executor.py / meta_data.py
@@ -221,7 +232,7 @@ def worker(args: Dict[str, Any]) -> Dict[str, Any]:
                 mon.set_events(tool_id, mon.events.LINE)
             except Exception:
                 tool_id = None
-        r = translate_inline(exe, q, out / f"h{i}", mk_out=st["outcome"] != "no_outdir")
+        r = translate_inline(exe, q, out / f"h{i}", mk_out=st["outcome"] != "no_outdir", shared=shared_asts, share=bool(st.get("share_ast")))
         if tool_id is not None:
             sys.monitoring.set_events(tool_id, 0)
             sys.monitoring.free_tool_id(tool_id)
@@ -235,7 +246,7 @@ def worker(args: Dict[str, Any]) -> Dict[str, Any]:
             exe = executors[backend]
         else:
             exe = executor_for(backend)
-        results[f"{name}|{backend}|{int(reuse)}"] = translate_inline(exe, pq, out / f"probe_{name}_{backend}_{int(reuse)}")
+        results[f"{name}|{backend}|{int(reuse)}"] = translate_inline(exe, pq, out / f"probe_{name}_{backend}_{int(reuse)}", shared=shared_asts)
     return {"trace": trace, "probes": results}
 
 
